@@ -86,6 +86,11 @@ impl<T> Caught<T> {
     }
 }
 
+/// Forget the last recorded panic (frees its strings; used by C27's heap accounting).
+pub fn clear_last_panic() {
+    LAST_PANIC.with(|p| *p.borrow_mut() = None);
+}
+
 /// Runs `f` with panics captured (quietly).
 pub fn guarded<T>(f: impl FnOnce() -> T) -> Caught<T> {
     install_panic_hook();
